@@ -126,8 +126,11 @@ pub fn cmd_track() {
                 }
                 #[cfg(feature = "std")]
                 "prune" => {
+                    // thresholds of 2 000 000 000 and more stand for the far end of the range (the trace checker's integers
+                    // are 32 bits wide): 2e9 + k means u64::MAX - k
                     let t = step["T"].as_u64().unwrap();
-                    let r = catch_unwind(AssertUnwindSafe(|| planes.prune(t)));
+                    let real = if t >= 2_000_000_000 { u64::MAX - (t - 2_000_000_000) } else { t };
+                    let r = catch_unwind(AssertUnwindSafe(|| planes.prune(real)));
                     emit(&mut out, &json!({"ev": "prune", "T": t, "outcome": if r.is_ok() { "ok" } else { "panic" },
                                            "planes": project_planes(&planes)}));
                 }
